@@ -16,7 +16,73 @@ graph) and the graph vocabulary are in `RuschmSpec/Lib.lean`.
 import RuschmProofs.LibLemmas
 
 namespace Ruschm.C14
-open Ruschm Ruschm.Interp
+open Ruschm Ruschm.Interp Ruschm.Loader
+
+/-! ## the abstract loader -/
+
+/-- the diamond: 0 imports 1 and 2, both import 3 -/
+def diamond : Graph := [(0, .healthy [1, 2]), (1, .healthy [3]), (2, .healthy [3]), (3, .healthy [])]
+
+/-- a cycle behind a healthy node, a missing library and a faulting one -/
+def tangled : Graph := [(0, .healthy [1]), (1, .healthy [2]), (2, .healthy [1]), (4, .healthy [5]),
+  (6, .faulty [3]), (3, .healthy [])]
+
+/-- Loading terminates for every dependency graph: as many units of fuel as there are nodes not
+in progress, plus one — so `|g| + 1` in every state — always suffice; the loader never reports
+that it ran out of fuel. (A call for a node that is not in progress marks it, so the number of
+unmarked nodes of the finite graph strictly decreases along every chain of nested calls.) -/
+theorem load_terminates (g : Graph) (st : LState) (x : Name) (fuel : Nat) (hfuel : g.length + 1 ≤ fuel) :
+    (load fuel g st x).1 ≠ .fuel := by
+  rw [load_eq_dfs']
+  exact dfs_ne_fuel g fuel _ _ x (by have := free_le g st.inProgress; omega)
+
+example : (load 7 tangled {} 0).1 = .cyclic ∧ (load 7 tangled {} 4).1 = .notFound ∧
+    (load 7 tangled {} 6).1 = .fault ∧ (load 7 tangled {} 3).1 = .ok := by decide
+
+/-- After ANY outcome (success, any error, even exhausted fuel) the in-progress list is the one
+before the call. -/
+theorem in_progress_restored (g : Graph) (st : LState) (x : Name) (fuel : Nat) :
+    (load fuel g st x).2.inProgress = st.inProgress := by
+  rw [load_eq_dfs']
+
+example : (load 7 tangled ⟨[], [9]⟩ 0) = (.cyclic, ⟨[], [9]⟩) := by decide
+
+/-- The cache is sound: a sound cache (`CacheOK`: only libraries that load from scratch, closed
+under dependencies, nothing in progress) stays sound after any load, with any outcome and any
+fuel; it only grows; a successful load puts the library into it; and a cached library loads `ok`
+immediately, without touching the state. The empty cache is sound. -/
+theorem cache_sound (g : Graph) (st : LState) (x : Name) (fuel : Nat) (h : CacheOK g st) :
+    CacheOK g (load fuel g st x).2 ∧
+    (∀ y ∈ st.cache, y ∈ (load fuel g st x).2.cache) ∧
+    ((load fuel g st x).1 = .ok → x ∈ (load fuel g st x).2.cache ∧ Loadable g x) ∧
+    (x ∈ st.cache → load (fuel + 1) g st x = (.ok, st)) ∧
+    CacheOK g {} := by
+  have hp := dfs_post g fuel st.cache st.inProgress x (cacheOK_iff.1 h)
+  refine ⟨?_, ?_, ?_, ?_, ⟨by simp, by simp, by simp⟩⟩
+  · rw [load_eq_dfs']; exact cacheOK_iff.2 hp.1.cok
+  · rw [load_eq_dfs']; exact hp.1.mono
+  · rw [load_eq_dfs']; intro hok; exact ⟨hp.2 hok, hp.1.cok.loadable _ (hp.2 hok)⟩
+  · intro hx
+    rw [load_eq_dfs', dfs_cached (h.disjoint x hx) hx]
+
+example : (load 7 diamond {} 0) = (.ok, ⟨[0, 2, 1, 3], []⟩) := by decide
+
+/-- MAIN THEOREM. Whatever was attempted before on the same loader — any list of loads of any
+names, each with any amount of fuel, successful or failed — the outcome of loading `x` afterwards
+is the outcome of loading `x` on the fresh loader: it is a function of the graph alone. (The
+in-progress list is restored by every attempt, and the cache only ever holds libraries that would
+load anyway.) -/
+theorem history_independent (g : Graph) (hist : List (Nat × Name)) (x : Name) (fuel : Nat)
+    (hfuel : g.length + 1 ≤ fuel) :
+    (load fuel g (attempts g {} hist) x).1 = (load fuel g {} x).1 := by
+  have h0 : CacheOK g {} := ⟨by simp, by simp, by simp⟩
+  obtain ⟨hok, hip⟩ := attempts_ok g hist {} h0
+  rw [load_eq_dfs', load_eq_dfs', hip]
+  exact dfs_indep g fuel _ _ _ x (hip ▸ cacheOK_iff.1 hok) (cacheOK_iff.1 h0)
+    (by have := free_le g ({} : LState).inProgress; omega)
+
+example : (load 7 tangled (attempts tangled {} [(7, 0), (1, 6), (7, 3), (7, 4)]) 6).1 = .fault := by
+  rw [history_independent tangled _ 6 7 (by decide)]; decide
 
 /-! ## the bridge to the model of the interpreter -/
 
